@@ -45,7 +45,7 @@ if dm:
     if dm["copy_to"].endswith("/"):
         os.makedirs(dst, exist_ok=True); dst = os.path.join(dst, os.path.basename(dm["file"]))
     shutil.copy(os.path.join(sd, dm["file"]), dst)
-    cmd = "go test -vet=off -count=1 -run '%s' %s 2>&1 | tail -15" % (dm["run"], dm["pkg"])
+    cmd = "go test %s -vet=off -count=1 -run '%s' %s 2>&1 | tail -15" % (("-tags " + dm["tags"]) if dm.get("tags") else "", dm["run"], dm["pkg"])
     rc1, o1 = sh(cmd + "; exit ${PIPESTATUS[0]}", cwd=repo)
     sh("git apply -R --whitespace=nowarn " + patch, cwd=repo)
     rc2, o2 = sh(cmd + "; exit ${PIPESTATUS[0]}", cwd=repo)
